@@ -9,6 +9,7 @@ import PygProofs.Lemmas.TreeLemmas
 import PygProofs.Lemmas.TreeMerge
 import PygProofs.Lemmas.TreeHeapLemmas
 import PygProofs.Lemmas.TreeHeapAbs
+import PygProofs.Lemmas.TreeTableLemmas
 
 namespace Pyg.Props.C15
 open Pyg Pyg.Tree Pyg.DA Pyg.TreeHeap
@@ -382,5 +383,78 @@ example : (update t0 u0 []).toOption = some (.dict [("a", .dict [("b", i 1), ("z
 example : (update t0 t0 []).toOption = some t0 := by decide
 example : (update t0 (.dict [("c", .cell .none), ("d", .cell .none)]) [.cell .none]).toOption =
     some (.dict [("a", .dict [("b", i 1), ("z", .dict [("q", i 5)])]), ("c", i 3), ("d", .cell .none)]) := by decide
+
+/-! ### table_to_tree / tree_to_table (partial) -/
+
+section table
+open Pyg.TreeTable
+
+/-- `table_tree_inverse_partial` — the COMPLETENESS half of "table_to_tree and tree_to_table with the same pattern are
+inverse on rows with unique paths", for EVERY pattern (literal and wildcard segments, at least two segments) and every
+table: if the rows bind the pattern (`rowItem` succeeds: `its` are the items `(path, leaf)` written for the rows), the paths
+are distinct and the leaves are not dicts, then `table_to_tree(None, P, rows)` returns a tree `t` in which every row's
+leaf is read back at the row's path (`tree_getitem`), and `tree_to_table(t, P)` contains, for every row, the row made of
+its item (`rowOf`: every wildcard bound to the key at its position / to the leaf).
+MISSING for the full inverse (hence `_partial`): that `tree_to_table(t, P)` contains NOTHING ELSE and each row once
+(soundness / multiplicities), and that `rowOf P (rowItem P row)` equals `row` on the names of `P` when the names are
+distinct.  Both are sampled by the implementation-level law `law-table-tree-*` and the `totable` / `totree` correspondence. -/
+theorem table_tree_inverse_partial (P : List Seg) (rows : List Row) (its : List (Path × Val))
+    (h2 : 2 ≤ P.length)
+    (hits : rows.mapM (rowItem P) = .ok its)
+    (hnd : (its.map (·.1)).Nodup)
+    (hleaf : ∀ pv ∈ its, ∀ s, pv.2 ≠ .dict s) :
+    ∃ t, toTree P rows = .ok t ∧
+      (∀ pv ∈ its, getItem (.dict t) pv.1 = .ok pv.2) ∧
+      ∀ pv ∈ its, ∀ r, rowOf P pv.1 pv.2 = some r → r ∈ toTable P (.dict t) := by
+  -- every item comes from a row: its path has `P.length - 1 ≥ 1` keys
+  have hlen : ∀ pv ∈ its, pv.1.length + 1 = P.length := by
+    intro pv hm
+    have key : ∀ (rows : List Row) (its : List (Path × Val)), rows.mapM (rowItem P) = .ok its →
+        ∀ pv ∈ its, ∃ row, rowItem P row = .ok pv := by
+      intro rows
+      induction rows with
+      | nil => intro its h pv hm; simp [pure, Except.pure] at h; subst h; simp at hm
+      | cons row rows ih =>
+        intro its h pv hm
+        simp only [List.mapM_cons, bind, Except.bind] at h
+        cases hx : rowItem P row with
+        | error e => simp [hx] at h
+        | ok x =>
+          simp only [hx] at h
+          cases hr : rows.mapM (rowItem P) with
+          | error e => simp [hr] at h
+          | ok its' =>
+            simp only [hr, pure, Except.pure, Except.ok.injEq] at h
+            subst h
+            rcases List.mem_cons.1 hm with rfl | hm
+            · exact ⟨row, hx⟩
+            · exact ih its' hr pv hm
+    obtain ⟨row, hrow⟩ := key rows its hits pv hm
+    exact rowItem_length P row pv hrow
+  have hne : ∀ pv ∈ its, pv.1 ≠ [] := by
+    intro pv hm e
+    have := hlen pv hm
+    rw [e] at this
+    simp at this; omega
+  have hbr : (its.map (·.1)).Pairwise Branch := by
+    refine List.Pairwise.imp_of_mem ?_ hnd
+    intro p q hp hq hpq
+    obtain ⟨x, hx, rfl⟩ := List.mem_map.1 hp
+    obtain ⟨y, hy, rfl⟩ := List.mem_map.1 hq
+    exact branch_of_ne _ _ (by have := hlen x hx; have := hlen y hy; omega) hpq
+  refine ⟨buildOn [] its, toTree_eq_buildOn P rows its [] hits hne, ?_, ?_⟩
+  · exact buildOn_reads_back its [] hbr hne
+  · intro pv hm r hr
+    exact toTable_complete P pv.1 _ pv.2 r (hleaf pv hm) hr (buildOn_reads_back its [] hbr hne pv hm)
+
+/-- non-vacuity: `'markets/%market/weight/%weight'` with two rows -/
+private def exP : List Seg := [.lit "markets", .wild "market", .lit "weight", .wild "weight"]
+private def exRows : List Row :=
+  [[("market", .cell (.str "TY")), ("weight", .cell (.int 3))], [("weight", .cell (.int 7)), ("market", .cell (.str "ES"))]]
+example : exRows.mapM (rowItem exP) = .ok [(["markets", "TY", "weight"], .cell (.int 3)), (["markets", "ES", "weight"], .cell (.int 7))] := rfl
+example : rowOf exP ["markets", "ES", "weight"] (.cell (.int 7)) = some [("weight", .cell (.int 7)), ("market", .cell (.str "ES"))] := rfl
+example : toTree exP exRows = .ok [("markets", .dict [("TY", .dict [("weight", .cell (.int 3))]), ("ES", .dict [("weight", .cell (.int 7))])])] := rfl
+
+end table
 
 end Pyg.Props.C15
